@@ -380,8 +380,11 @@ add('k1_loops', 'k3_remove', 'k3_remove_h()', props=['C01', 'C05'], tier='t', ki
 import copy
 NA_BASE = ['copy_bytes_memmove_80', 'k3_insert', 'stack_align_a64', 'stackn_align_a32', 'insert_raw_fixed_e8', 'insert_typed_fixed_e8', 'push_raw_fixed_e8', 'splice_fixed_e8_k2', 'clone_fixed_e8', 'clone_empty_in_e8', 'drain_erased_e8',
            'remove_drop_e8', 'swap_remove_move_e8', 'pop_drop_e8', 'insert_raw_e8', 'push_fixed_full_e8', 'insert_typed_fixed_full_e8', 'stack_build_e8_16',
-           'stack_build_e3_8', 'stackn_build_e8_2_16', 'stackn_insufficient_e8_2_15', 'empty_e8', 'iter_e8', 'get_e8', 'clear_e8', 'vecdrop_e8', 't_elements']
-QUICK_NA = {'copy_bytes_memmove_80', 'stack_align_a64', 'stackn_align_a32', 'insert_raw_fixed_e8', 'push_raw_fixed_e8', 'clone_fixed_e8', 'drain_erased_e8', 'remove_drop_e8', 'push_fixed_full_e8', 'stack_build_e8_16', 'stackn_build_e8_2_16', 'splice_fixed_e8_k2'}
+           'stack_build_e3_8', 'stackn_build_e8_2_16', 'stackn_insufficient_e8_2_15', 'empty_e8', 'iter_e8', 'get_e8', 'clear_e8', 'vecdrop_e8', 't_elements',
+           # one representative per harness family (a change guarded by cfg!(not(feature = "alloc")) can sit in any function)
+           'stack_build_e3_9', 'stack_build_e24_48', 'clone_nodrop_e8', 'clone_e8', 'lazy_ref_d1_e8', 'views_e8', 'inline_views_stack10_u32', 'inline_views_stackn_2_24_u32', 'iter_provided_e8', 'drain_nth_e8', 'pop_forget_e8', 'insert_wrapper_e8', 'insert_lazy_clone_tgt_e8', 'splice_erased_e8_k2', 'swap_0_0', 'into_iter_e8', 'splice_typed_api_fixed_e8', 'splice_fixed_overflow_e8']
+QUICK_NA = {'copy_bytes_memmove_80', 'stack_align_a64', 'stackn_align_a32', 'insert_raw_fixed_e8', 'push_raw_fixed_e8', 'clone_fixed_e8', 'drain_erased_e8', 'remove_drop_e8', 'push_fixed_full_e8', 'stack_build_e8_16', 'stackn_build_e8_2_16', 'splice_fixed_e8_k2',
+            'stack_build_e3_9', 'stack_build_e24_48', 'clone_nodrop_e8', 'clone_e8', 'lazy_ref_d1_e8', 'views_e8', 'inline_views_stack10_u32', 'inline_views_stackn_2_24_u32', 'iter_provided_e8', 'drain_nth_e8', 'pop_forget_e8', 'insert_wrapper_e8', 'insert_lazy_clone_tgt_e8', 'splice_erased_e8_k2', 'swap_0_0', 'into_iter_e8', 'splice_typed_api_fixed_e8', 'splice_fixed_overflow_e8'}
 for nm in NA_BASE:
     h0 = next(h for h in HS if h.name == nm)
     h = copy.copy(h0)
